@@ -224,6 +224,70 @@ func runC05(c *fw.Ctx) {
 		c05Pinned(p, i)
 		c.Distinct(p.input())
 	})
+	// grow-and-shrink programs: one list taken across several capacity doublings, then shrunk again by single and
+	// multi-index deletions of every size, with growth in between (the full model comparison runs after every step)
+	c.Cases("grow-shrink", c.N(300, 30000), false, func(i int, r *rng.R) {
+		p := &prog{c: c, r: r, h: &model.Heap{}}
+		guard(c, p.input, func() {
+			l := p.h.NewList(nil)
+			p.step("NewList", l.Name()+" = NewList()", false, func() { l.Real = at.NewList() })
+			target := []int{17, 33, 40, 65, 70, 129, 200, 300}[r.Intn(8)]
+			for len(l.E) < target && !p.failed {
+				k := r.Range(1, 16)
+				vals := make([]model.Val, k)
+				for j := range vals {
+					vals[j] = model.Int(len(l.E) + j)
+				}
+				c05Add(p, l, vals)
+			}
+			for round := 0; round < 25 && !p.failed && len(l.E) > 0; round++ {
+				n := len(l.E)
+				switch r.Intn(6) {
+				case 0:
+					c05Pop(p, l)
+				case 1:
+					c05Add(p, l, []model.Val{model.Str("again"), model.Int(round)})
+				case 2:
+					idx := r.Intn(n)
+					p.step("Delete", fmt.Sprintf("%s.Delete(%d) [n=%d]", l.Name(), idx, n), false, func() {
+						l.E = append(l.E[:idx:idx], l.E[idx+1:]...)
+						l.List().Delete(idx)
+					})
+				default:
+					if n < 2 {
+						continue
+					}
+					k := r.Range(2, n)
+					switch r.Intn(3) {
+					case 0:
+						k = r.Range(2, minInt(4, n))
+					case 1:
+						k = n - r.Intn(minInt(n-1, 12)) - 1 // leave only a few
+						if k < 2 {
+							k = 2
+						}
+					}
+					idxs := append([]int{}, r.Perm(n)[:k]...)
+					p.step("Delete", fmt.Sprintf("%s.Delete(%d distinct indices) [n=%d]", l.Name(), k, n), false, func() {
+						del := map[int]bool{}
+						for _, x := range idxs {
+							del[x] = true
+						}
+						var ne []model.Val
+						for j, e := range l.E {
+							if !del[j] {
+								ne = append(ne, e)
+							}
+						}
+						l.E = ne
+						l.List().Delete(append([]int{}, idxs...)...)
+					})
+				}
+				noteStorage(c, l.List())
+			}
+		})
+		c.Distinct(p.input())
+	})
 	c.Cases("programs", c.N(1500, 150000), false, func(i int, r *rng.R) {
 		p := &prog{c: c, r: r, h: &model.Heap{}}
 		guard(c, p.input, func() {
